@@ -6,6 +6,14 @@ namespace Rsp
 
 abbrev Bytes := List UInt8
 
+/- `b! "text"` : the UTF-8 octets of a string literal as an explicit list literal
+   (so that `decide`/`rfl` can compute with it). -/
+open Lean in
+macro "b!" x:str : term => do
+  let bs := x.getString.toUTF8.toList
+  let elems ← bs.toArray.mapM fun b => `(($(quote b.toNat) : UInt8))
+  `(([$elems,*] : List UInt8))
+
 /-- Little-endian value of a byte list (least significant first). -/
 def leVal : Bytes → Nat
   | [] => 0
